@@ -341,6 +341,13 @@ REJECT = [
     # a derive that redefines a name un-names EVERY earlier column of that name (both sides of the join)
     "from a\nselect {x, y}\njoin (from b | select {x, z}) (a.x == b.x)\nderive x = a.x + b.x\nselect {b.x}\n",
     "from a\nselect {x, y}\njoin (from b | select {x, z}) (a.x == b.x)\nderive x = a.x + b.x\nselect {a.x}\n",
+    # an earlier use through ONE of two wildcard relations does not decide a later bare name
+    "from a\nfilter x > 1\njoin b (==id)\nselect x\n",
+    "from a\nderive {d = x + 1}\njoin b (==id)\nselect {x}\n",
+    # a relation all of whose columns were dropped cannot be addressed as a whole either
+    "from a\njoin b (==id)\nselect {a.x}\nselect {a.x, b.*}\n",
+    "from a\njoin b (==id)\naggregate {n = count this}\nselect {n, b}\n",
+    "from a\njoin b (==id)\nselect {a.x}\nselect {b.y}\n",
 ]
 
 
